@@ -336,7 +336,7 @@ class TypedNode(Node):
                     f"`before=node` ({before._parent}) "
                     f"must be a child of target node ({self})"
                 )
-            idx = children.index(before)  # raises ValueError
+            idx = before._get_sibling_index()  # compare by identity
             children.insert(idx, node)
         else:
             children.append(node)
